@@ -368,3 +368,86 @@ func linksOracle(run *Run, sc *Scenario) int {
 	}
 	return n
 }
+
+// depKeyCases: for every block schema of a generated schema that registers dependent bodies, the key under which
+// each body is registered - NewSchemaKey of the dependency keys in the order the schema author listed them - is
+// compared with the model (kind schemakey) and, directly, with the key of the same pairs listed in canonical
+// order (labels by index, attributes by name): the body a block selects must not depend on the listing order.
+var depKeyProbesDone = map[*Run]bool{}
+
+func depKeyCases(run *Run, sch *schema.BodySchema) {
+	seen := map[*schema.BlockSchema]bool{}
+	if !depKeyProbesDone[run] {
+		// once per run: every listing order of three-label, three-attribute and mixed keys (the shapes of
+		// multi-label provider / resource schemas), against the model and against the canonical listing
+		depKeyProbesDone[run] = true
+		sv := func(s string) schema.ExpressionValue { return schema.ExpressionValue{Static: cty.StringVal(s)} }
+		base := []schema.DependencyKeys{
+			{Labels: []schema.LabelDependent{{Index: 0, Value: "aws"}, {Index: 1, Value: "instance"}, {Index: 2, Value: "web"}}},
+			{Attributes: []schema.AttributeDependent{{Name: "engine", Expr: sv("pg")}, {Name: "region", Expr: sv("eu")}, {Name: "tier", Expr: sv("gold")}}},
+			{Labels: []schema.LabelDependent{{Index: 0, Value: "a"}, {Index: 2, Value: "c"}},
+				Attributes: []schema.AttributeDependent{{Name: "backend", Expr: sv("s3")}, {Name: "alias", Expr: schema.ExpressionValue{Address: lang.Address{lang.RootStep{Name: "var"}, lang.AttrStep{Name: "x"}}}}}},
+		}
+		for _, k := range base {
+			want := string(schema.NewSchemaKey(copyKeys(k)))
+			for _, pl := range allPerms(len(k.Labels)) {
+				for _, pa := range allPerms(len(k.Attributes)) {
+					c := schema.DependencyKeys{}
+					for _, i := range pl {
+						c.Labels = append(c.Labels, k.Labels[i])
+					}
+					for _, i := range pa {
+						c.Attributes = append(c.Attributes, k.Attributes[i])
+					}
+					got := string(schema.NewSchemaKey(copyKeys(c)))
+					run.Case("schemakey", keysS(c), T("key", Str(got)))
+					run.Count("dependent_body_key_probes")
+					if got != want {
+						run.Violate(Violation{Key: run.Res.Property + "/dependent-body-key-depends-on-listing-order", Rule: "the dependent body a block selects does not depend on the order in which the schema lists the dependency keys",
+							Func: "schema.NewSchemaKey", Detail: fmt.Sprintf("%s vs %s (canonical listing)", got, want),
+							Replay: map[string]interface{}{"kind": "schema-key-probe", "as_listed": got, "canonical": want}})
+					}
+				}
+			}
+		}
+	}
+	var walk func(bs *schema.BodySchema, d int)
+	walk = func(bs *schema.BodySchema, d int) {
+		if bs == nil || d > 4 {
+			return
+		}
+		for _, bt := range sortedKeys(bs.Blocks) {
+			b := bs.Blocks[bt]
+			if b == nil || seen[b] {
+				continue
+			}
+			seen[b] = true
+			for _, dk := range depKeyIndex[b] {
+				got := string(schema.NewSchemaKey(copyKeys(dk)))
+				run.Case("schemakey", keysS(dk), T("key", Str(got)))
+				run.Count("dependent_body_keys")
+				canon := copyKeys(dk)
+				sort.SliceStable(canon.Labels, func(i, j int) bool { return canon.Labels[i].Index < canon.Labels[j].Index })
+				sort.SliceStable(canon.Attributes, func(i, j int) bool { return canon.Attributes[i].Name < canon.Attributes[j].Name })
+				if hasDup(dk) {
+					continue
+				}
+				if want := string(schema.NewSchemaKey(canon)); got != want {
+					run.Violate(Violation{Key: run.Res.Property + "/dependent-body-key-depends-on-listing-order", Rule: "the dependent body a block selects does not depend on the order in which the schema lists the dependency keys",
+						Func: "schema.NewSchemaKey", Detail: fmt.Sprintf("block type %q: %s (as listed) vs %s (canonical order)", bt, got, want),
+						Replay: map[string]interface{}{"kind": "schema-key", "block": bt, "as_listed": got, "canonical": want}})
+				}
+			}
+			walk(b.Body, d+1)
+			var dks []string
+			for k := range b.DependentBody {
+				dks = append(dks, string(k))
+			}
+			sort.Strings(dks)
+			for _, k := range dks {
+				walk(b.DependentBody[schema.SchemaKey(k)], d+1)
+			}
+		}
+	}
+	walk(sch, 0)
+}
